@@ -118,7 +118,7 @@ func (r *run) play(a *tcpassembly.Assembler, after func(ev *asm.Ev)) (pi *vlib.P
 	limit := r.h.PerConnLimit > 0 || r.h.TotalLimit > 0
 	for i := range r.h.Evs {
 		ev := &r.h.Evs[i]
-		r.cc = asm.CallCtx{Call: i, Flush: ev.Kind != asm.EvSeg, LimitConfigured: limit}
+		r.cc = asm.CallCtx{Call: i, Flush: ev.Kind != asm.EvSeg, LimitConfigured: limit, PerConn: r.h.PerConnLimit, Total: r.h.TotalLimit}
 		pi = vlib.Guard(func() {
 			switch ev.Kind {
 			case asm.EvSeg:
@@ -155,15 +155,41 @@ func (r *run) finals() {
 	}
 }
 
+type c10Factory struct{ cur *run }
+
+func (f *c10Factory) New(a, b gopacket.Flow) tcpassembly.Stream { return f.cur.New(a, b) }
+
+type c10SharedAsm struct {
+	f *c10Factory
+	a *tcpassembly.Assembler
+}
+
+var c10Shared = map[[2]int]*c10SharedAsm{}
+var c10HistoryNo int
+
 func runHistory10(c *vlib.Ctx, h *asm.History) {
 	c.Step()
 	r := newRun(c, h)
 	r.viol = func(key, desc string) { c.Violation(key, desc, map[string]any{"history": h.String()}) }
-	pool := tcpassembly.NewStreamPool(r)
-	a := tcpassembly.NewAssembler(pool)
+	// every other history runs on a pool and assembler that earlier histories with the same limits have used (each history
+	// ends with FlushAll, so the pool is empty again): connection objects and pages are recycled ones, with whatever
+	// state a close left in them
+	var a *tcpassembly.Assembler
+	lk := [2]int{h.PerConnLimit, h.TotalLimit}
+	c10HistoryNo++
+	if sh := c10Shared[lk]; sh != nil && c10HistoryNo%2 == 0 {
+		sh.f.cur = r
+		a = sh.a
+		c.Count("histories_on_a_reused_pool", 1)
+	} else {
+		f := &c10Factory{cur: r}
+		a = tcpassembly.NewAssembler(tcpassembly.NewStreamPool(f))
+		c10Shared[lk] = &c10SharedAsm{f, a}
+	}
 	a.MaxBufferedPagesPerConnection = h.PerConnLimit
 	a.MaxBufferedPagesTotal = h.TotalLimit
 	if pi := r.play(a, nil); pi != nil {
+		delete(c10Shared, lk)
 		c.Violation(pi.Key, "assembler panicked: "+pi.Value, map[string]any{"history": h.String(), "stack": pi.Stack})
 		return
 	}
